@@ -80,6 +80,54 @@ CHECKS = {
         "Bounded witness length (|p|+2 quick); all patterns of length <=2 exhaustive, generated 3-4.",
         "DESIGN.md 4/C18",
     ),
+    "C07": (
+        "schedule-owning thread harness (sys.settrace preemption at every line of permset.py, cooperative replacement of the class lock) driven by Hypothesis-generated and PCT-style schedules; sequential brute-force model as oracle; real-thread stress run",
+        "Each case is (basis, 2-4 thread programs, schedule); exactly one thread runs at a time so the run is a pure function of code and case and shrinks/replays as one value; every query result is compared with the sequential answer, exceptions and deadlocks are violations. Exploration: schedules are sampled, not enumerated.",
+        "Preemption granularity = one source line of permset.py; library code called from there runs atomically. A foreign blocking primitive introduced by a change shows up as a harness stall (exit 2), not as a violation.",
+        "DESIGN.md 3.5, 4/C07",
+    ),
+    "C13": (
+        "Hypothesis-generated bases in every container form / order / symmetry + exhaustive small bases + verdict-call histories; oracle = structure theorems with membership decided by reference avoidance of the published bases of the ten classes; enumeration consistency",
+        "Verdicts of is_finite / is_polynomial / is_insertion_encodable(_rightmost/_maximum), the Av wrappers and the CLI are compared with the theorems on list, tuple, set, frozenset, Basis, generator, one-shot iterator, dict-keys and reversed containers under all eight symmetries; finite classes must be empty beyond the Erdos-Szekeres bound, infinite ones never, non-polynomial ones at least Fibonacci-sized.",
+        "Published bases are cross-checked against split-point definitions on S_<=6 in the self-test. Enumeration for lengths 7-9 trusts Av (C02), cross-checked up to 6.",
+        "DESIGN.md 4/C13",
+    ),
+    "C14": (
+        "exhaustive enumeration of all pin words / (word, permutation) pairs below a length bound + Hypothesis-generated longer ones; oracle = order-theoretic decoder, true containment, own Theorem 3.13 matcher",
+        "Decoding, quadrants, factors, the three tables, the SP<->M translations for every word up to length 5 (6 thorough); containment reflection for every (w, sigma) with |sigma| <= |w| <= 4 and generated sub-permutations / near misses up to length 8.",
+        "Own matcher = truth is asserted first (harness error otherwise). Open finding F8 (touching direction-led factor) is classified by the matcher without the gap condition.",
+        "DESIGN.md 4/C14",
+    ),
+    "C15": (
+        "exhaustive enumeration of (single-permutation basis, direction word) pairs + generated bases; oracle = semantic language (reference containment on the decoded pin sequence), own product/cycle search on the automaton's transition table",
+        "All four construction routes must accept exactly the words of M whose encoded permutation contains a basis element (all words up to length 9/10); has_finite_pinperms against an own cycle search with semantic confirmation in both directions; database vs scratch by own product BFS.",
+        "Words of length < 2 encode nothing. Semantic 'finite' confirmation needs l*+1 <= 11.",
+        "DESIGN.md 4/C15",
+    ),
+    "C16": (
+        "Hypothesis-generated structured bases (boundary classes derived by brute force from explicit chains of simples) + exhaustive small bases; oracle = Schmerl-Trotter enumeration of simples and explicit infinite chains; metamorphic invariance across entry points, orders and symmetries",
+        "'infinite' must be witnessed by simples in one of every two consecutive lengths up to N; 'finite' must hit each of the 24 oriented explicit chains and bound the avoiding pin sequences; all entry points (utility, class method, strategy, CLI) agree and are symmetry invariant.",
+        "Both directions are consequences of theorems (no false alarms) but bounded (N; the chains constructed). Enumeration trusts Av (C02) beyond length 6.",
+        "DESIGN.md 4/C16",
+    ),
+    "C17": (
+        "Hypothesis-generated finite input sets in three representations; oracle = the three guarantees (sound up to n, complete up to m, cell-wise irredundant) evaluated with reference mesh containment; differential check of the algorithm's private containment tests; auto_bisc end-to-end on generated properties",
+        "bisc output for arbitrary finite sets A (not only classes) is checked against A itself with the reference model; clean-up bases must hit every tested bad permutation and round-trip; auto_bisc's description must coincide with the property on all permutations of length <= 8.",
+        "n <= 5, m <= 4; auto_bisc under a time budget (hit = inconclusive).",
+        "DESIGN.md 4/C17",
+    ),
+    "C19": (
+        "Hypothesis-generated bases around the strategies' boundaries + all subsets of the needed patterns; oracle = hypotheses re-implemented on tuples with reference containment; metamorphic invariance under order, repetition and the eight symmetries",
+        "find_strategies (quick and slow) and every Strategy(basis).applies() are compared with the re-implemented hypotheses for every symmetric image and order variant.",
+        "Basis elements of length >= 2. FinitelyManySimples line trusts PinWords.has_finite_simples (C16). Rd2134/Ru2143 shapes are documented only by code.",
+        "DESIGN.md 4/C19",
+    ),
+    "C20": (
+        "model-based stateful testing with fault injection (op-list strategy + Hypothesis RuleBasedStateMachine) over a scratch directory; exhaustive check of all shipped data against the family definitions; automaton database histories with own language-equivalence BFS",
+        "Write/rewrite/read/delete/truncate/empty/garbage histories against a dict model of the directory; every shipped (family, length) is a duplicate-free partition of S_k with good = the family by the C12 oracle definitions; loaded automata are language-equivalent to fresh ones after any store/create/load/forget history.",
+        "Fault model = missing, truncated, emptied, non-JSON bytes. Two emptied len9 files are asserted to be reported invalid and skipped.",
+        "DESIGN.md 4/C20",
+    ),
 }
 
 NOT_YET = {}
